@@ -2,7 +2,7 @@
    Only statements, [exact] and [Print Assumptions] live here. *)
 From Coq Require Import List Arith Bool NArith.
 From GV Require Import Base.Result Gen.TokenTypes Gen.Defs Model.Lexer Model.Parser Model.BuilderWL
-  Proofs.C13.LexRun Proofs.C03.ParseTotal Proofs.C03.Bounded Proofs.C03.Bounded4.
+  Proofs.C13.LexRun Proofs.C03.ParseTotal Proofs.C03.BuildTotal Proofs.C03.Bounded Proofs.C03.Bounded4.
 Import ListNotations.
 
 (* lex, for EVERY input string (code points) and every Unicode classification [un] / [ua] of
@@ -31,23 +31,38 @@ Theorem C03_pipeline_total_bounded_4_rep : forall toks : list token_type,
 Proof. intros toks Hl Hin. exact (proj1 (pipeline_bounded_4_rep toks Hl Hin)). Qed.
 Print Assumptions C03_pipeline_total_bounded_4_rep.
 
-(* The full statement for parse and build (lexing is C03_lex_total above; the builder half for
-   arbitrary accepted trees is not proved beyond the bounds): *)
+(* build, for EVERY node array (not only parse results), every initial content of the data
+   object and every outcome of literal parsing: Ok or Err, never a panic, never exhausted fuel.
+   build() checks first that every link stays inside the array and carries an iteration cap on its
+   node loop (both in build.rs, transliterated in Model/BuilderWL.v); the proof is an invariant over
+   the two worklist loops. *)
+Theorem C03_build_total : forall (tree : list pnode) (init : binit) (lit_ok : nat -> bool) (root : nat),
+  total (build tree init lit_ok (build_fuel tree) root).
+Proof. exact build_total. Qed.
+Print Assumptions C03_build_total.
+
+(* The full statement over the models, UNBOUNDED: every input string lexes to Ok/Err
+   (C03_lex_total), every token list parses to Ok/Err, and whatever parse returns builds to
+   Ok/Err into any data object. *)
 Definition C03_full_statement : Prop :=
   forall toks : list token_type,
     total (parse toks) /\
-    (forall root nodes, parse toks = Ok (root, nodes) ->
-       total (build nodes empty_init (fun _ => true) (build_fuel nodes) root)).
+    (forall root nodes init lit_ok, parse toks = Ok (root, nodes) ->
+       total (build nodes init lit_ok (build_fuel nodes) root)).
 
-(* non-vacuity: the model can express the failure.  This is the node graph the
-   parser produced for `5 + + 6` before the fix in /repo (1.right = 2, 2.left = 1):
-   the worklist builder never terminates on it. *)
-Example C03_builder_hangs_on_cycle :
+Theorem C03_full : C03_full_statement.
+Proof. intros toks. split; [apply parse_total|]. intros root nodes init lit_ok _. apply build_total. Qed.
+Print Assumptions C03_full.
+
+(* non-vacuity: the guards are what makes this true.  This is the node graph the parser
+   produced for `5 + + 6` before the fixes in /repo (1.right = 2, 2.left = 1): the worklist
+   loop revisits it forever; with the iteration cap the builder answers Err. *)
+Example C03_builder_rejects_cycle :
   build [mkNode D_Number S_Value (Some 1) None None (Some 0);
          mkNode D_Addition S_BinaryLeftToRight (Some 2) (Some 0) (Some 2) (Some 2);
          mkNode D_Addition S_BinaryLeftToRight None (Some 1) (Some 3) (Some 4);
          mkNode D_Number S_Value (Some 2) None None (Some 6)]
-        empty_init (fun _ => true) 200 2 = OutOfFuel.
+        empty_init (fun _ => true) 200 2 = Err E_build.
 Proof. vm_compute. reflexivity. Qed.
 
 Example C03_accepts_program :
